@@ -28,12 +28,46 @@ def LE(s, e, n):
     return "forall(q, 0, %s, %s[q] <= %s[q])" % (n, s, e)
 
 
+# CPython-adjusted bounds of list q (see ADJ above), as defined ghosts over the kernel's parameters
+RNG = {
+    "ln": (["q"], "fromstops[q] - fromstarts[q]"),
+    "rsp": (["q"], "ite(start == kSliceNone, 0, ite(start < 0, max(start + ln(q), 0), min(start, ln(q))))"),
+    "rep": (["q"], "max(ite(stop == kSliceNone, ln(q), ite(stop < 0, max(stop + ln(q), 0), min(stop, ln(q)))), rsp(q))"),
+    "rsn": (["q"], "ite(start == kSliceNone, ln(q) - 1, ite(start < 0, max(start + ln(q), -1), min(start, ln(q) - 1)))"),
+    "ren": (["q"], "min(ite(stop == kSliceNone, -1, ite(stop < 0, max(stop + ln(q), -1), min(stop, ln(q) - 1))), rsn(q))"),
+    # c = number of positions selected from list q: the unique c >= 0 with  first + c*step  past the end and
+    # first + (c-1)*step not past it  (that is len(range(first, end, step)))
+    "cntok_p": (["q", "c"], "c >= 0 and rsp(q) + c * step >= rep(q) and (c == 0 or rsp(q) + (c - 1) * step < rep(q))"),
+    "cntok_n": (["q", "c"], "c >= 0 and rsn(q) + c * step <= ren(q) and (c == 0 or rsn(q) + (c - 1) * step > ren(q))"),
+}
+
 K("awkward_ListArray_getitem_next_range",
-  # C01: every carried position lies inside the list being sliced, for every start/stop/step (CPython-adjusted
-  # bounds come from the callee contract of awkward_regularize_rangeslice)
-  store_asserts={"tocarry": ["fromstarts[i] <= value and value < fromstops[i]"]},
+  # C01, for every start/stop/step: (a) every carried position lies inside the list being sliced; (b) the m-th
+  # position written for list i is  start_i + first_i + m*step  with first_i CPython's adjusted start; (c) the
+  # number of positions written for list q is len(range(first_q, end_q, step)) (offsets differences).
+  # CPython-adjusted bounds come from the callee contract of awkward_regularize_rangeslice (modular call).
+  store_asserts={"tocarry": ["fromstarts[i] <= value and value < fromstops[i]", "index == k"]},
   requires=[LE("fromstarts", "fromstops", "lenstarts"), "step != 0"],
   extents={"tooffsets": "lenstarts + 1"},
+  ghost=RNG,
+  per_spec={"ListArray64": {
+      "store_asserts": {"tocarry": ["fromstarts[i] <= value and value < fromstops[i]", "index == k",
+                                    "value == fromstarts[i] + ite(step > 0, rsp(i), rsn(i)) + (k - tooffsets[i]) * step"]},
+      "loops": {
+          "L0": ["0 <= i", "k == tooffsets[i]", "tooffsets[0] == 0", "step > 0",
+                 "forall(q, 0, i, cntok_p(q, tooffsets[q + 1] - tooffsets[q]))"],
+          "L0.0": ["k >= tooffsets[i]", "(k - tooffsets[i]) * step == j - rsp(i)", "regular_start == rsp(i)", "regular_stop == rep(i)",
+                   "k == tooffsets[i] or j - step < rep(i)", "step > 0", "tooffsets[0] == 0",
+                   "forall(q, 0, i, cntok_p(q, tooffsets[q + 1] - tooffsets[q]))"],
+          "L1": ["0 <= i", "k == tooffsets[i]", "tooffsets[0] == 0", "step < 0",
+                 "forall(q, 0, i, cntok_n(q, tooffsets[q + 1] - tooffsets[q]))"],
+          "L1.0": ["k >= tooffsets[i]", "(k - tooffsets[i]) * step == j - rsn(i)", "regular_start == rsn(i)", "regular_stop == ren(i)",
+                   "k == tooffsets[i] or j - step > ren(i)", "step < 0", "tooffsets[0] == 0",
+                   "forall(q, 0, i, cntok_n(q, tooffsets[q + 1] - tooffsets[q]))"],
+      },
+      "ensures_ok": ["implies(step > 0, forall(q, 0, lenstarts, cntok_p(q, tooffsets[q + 1] - tooffsets[q])))",
+                     "implies(step < 0, forall(q, 0, lenstarts, cntok_n(q, tooffsets[q + 1] - tooffsets[q])))",
+                     "tooffsets[0] == 0"]}},
   notes="calls awkward_regularize_rangeslice: verified modularly against that function's contract",
   serves=["C01", "C12", "C13"])
 
